@@ -2,7 +2,7 @@
    Part A: the tokens of a rendered document; part B: the line parser over those tokens. *)
 From Coq Require Import List NArith Bool Lia Arith.
 Import ListNotations.
-From SV Require Import Template TemplateProofs gen_Unicode Escape EscapeProofs LineParser CramSpec Markdown MdSpec MarkdownProofs.
+From SV Require Import Template TemplateProofs gen_Unicode Escape EscapeProofs LineParser CramSpec CramProofs Markdown MdSpec MarkdownProofs.
 Local Open Scope N_scope.
 
 (* ---------- backticks, fences, headers ---------- *)
@@ -286,3 +286,191 @@ Proof.
       f_equal. f_equal. cbn [length]. rewrite app_length. cbn [length]. unfold text. lia.
 Qed.
 End Tokens.
+
+(* ---------- the tokens of a rendered document ---------- *)
+Fixpoint tokens_from (idx : nat) (d : list elem) : list token :=
+  match d with [] => [] | e :: r => elem_tokens idx e ++ tokens_from (idx + length (render_elem e)) r end.
+
+Section Doc.
+Variable pe_ok : text -> bool.
+Variable front_ok : list text -> bool.
+Variable cfg_ok : text -> bool.
+
+Theorem tokens_render : forall d first idx, wf_md_from pe_ok front_ok cfg_ok first d = true ->
+  mrun (Top (negb first)) idx (render_md d) = tokens_from idx d.
+Proof.
+  induction d as [|e d IH]; intros first idx H; [reflexivity|].
+  cbn [wf_md_from] in H. apply andb_true_iff in H. destruct H as [He Hd].
+  cbn [render_md flat_map tokens_from]. fold (render_md d).
+  rewrite (elem_run pe_ok front_ok cfg_ok e first idx (render_md d) He). f_equal.
+  apply IH. exact Hd.
+Qed.
+
+(* ---------- part B: the line parser over the tokens ---------- *)
+Definition cl (t : option text) (ic : bool) (cases : list ptest) : lp := mkLP t [] [] None ic None cases.
+
+Lemma strip_dollar : forall c, strip_prefix P_DOLLAR (P_DOLLAR ++ c) = Some c.
+Proof. intros. reflexivity. Qed.
+
+Lemma add_cont_md : forall t cmds st cases c idx, cmds <> [] ->
+  add_body pe_ok false (mkLP t cmds [] None true (Some st) cases) (P_GT ++ c) idx
+  = LOk (mkLP t (cmds ++ [c]) [] None true (Some st) cases).
+Proof.
+  intros t cmds st cases c idx H. unfold add_body. cbn [orb lp_cmd]. destruct cmds as [|c0 cmds]; [congruence|].
+  cbn [lp_in_command]. change (strip_prefix P_GT (P_GT ++ c)) with (Some c). reflexivity.
+Qed.
+
+Lemma feed_app : forall a b s, feed_code pe_ok s (a ++ b) =
+  match feed_code pe_ok s a with LOk s' => feed_code pe_ok s' b | LErr => LErr end.
+Proof.
+  induction a as [|[i l] a IH]; intros b s; cbn [app feed_code]; [reflexivity|].
+  destruct (add_body pe_ok false s l i); [apply IH|reflexivity].
+Qed.
+
+Lemma feed_conts_md : forall conts t cmds st cases idx, cmds <> [] ->
+  feed_code pe_ok (mkLP t cmds [] None true (Some st) cases) (numbered idx (map (fun x => P_GT ++ x) conts))
+  = LOk (mkLP t (cmds ++ conts) [] None true (Some st) cases).
+Proof.
+  induction conts as [|c conts IH]; intros t cmds st cases idx H; cbn [map numbered feed_code].
+  - rewrite app_nil_r. reflexivity.
+  - rewrite add_cont_md by exact H. rewrite IH by (destruct cmds; discriminate). rewrite <- app_assoc. reflexivity.
+Qed.
+
+Definition orelse_code (a b : option N) : option N := match a with Some _ => a | None => b end.
+
+Lemma add_exp_md : forall t cmds exps code st ic cases l idx n, cmds <> [] ->
+  md_exp_ok pe_ok n l = true -> (ic = true -> starts_with P_GT l = false) ->
+  add_body pe_ok false (mkLP t cmds exps code ic (Some st) cases) l idx
+  = LOk (mkLP t cmds (exps ++ [l]) code false (Some st) cases).
+Proof.
+  intros t cmds exps code st ic cases l idx n Hc H Hgt. unfold md_exp_ok in H.
+  apply andb_true_iff in H. destruct H as [H _]. apply andb_true_iff in H. destruct H as [H _].
+  apply andb_true_iff in H. destruct H as [He Hpe].
+  unfold add_body. cbn [orb lp_cmd]. destruct cmds as [|c0 cmds]; [congruence|]. cbn [lp_in_command].
+  assert (G : (if ic then strip_prefix P_GT l else None) = None).
+  { destruct ic; [|reflexivity]. unfold strip_prefix. rewrite Hgt by reflexivity. reflexivity. }
+  rewrite G. destruct (extract_exit_code l); [discriminate|]. rewrite Hpe. reflexivity.
+Qed.
+
+Lemma add_code_md : forall t cmds exps st ic cases ds idx, cmds <> [] -> code_ok ds = true ->
+  add_body pe_ok false (mkLP t cmds exps None ic (Some st) cases) ([91] ++ ds ++ [93]) idx
+  = LOk (mkLP t cmds exps (Some (digits_value 0 ds)) false (Some st) cases).
+Proof.
+  intros t cmds exps st ic cases ds idx Hc H. unfold add_body. cbn [orb lp_cmd]. destruct cmds as [|c0 cmds]; [congruence|].
+  cbn [lp_in_command].
+  assert (G : (if ic then strip_prefix P_GT ([91] ++ ds ++ [93]) else None) = None) by (destruct ic; reflexivity).
+  rewrite G. rewrite (CramProofs.extract_code_digits ds H). reflexivity.
+Qed.
+
+Lemma feed_body_md : forall body n t cmds exps code st ic cases idx, cmds <> [] ->
+  forallb (fun b => match b with BExp l => md_exp_ok pe_ok n l | BCode ds => code_ok ds end) body = true ->
+  (count_codes body + (match code with Some _ => 1 | None => 0 end) <= 1)%nat ->
+  (ic = true -> match body with BExp l :: _ => starts_with P_GT l = false | _ => True end) ->
+  exists ic', feed_code pe_ok (mkLP t cmds exps code ic (Some st) cases) (numbered idx (map render_body body))
+              = LOk (mkLP t cmds (exps ++ exps_of body) (orelse_code code (code_of body)) ic' (Some st) cases).
+Proof.
+  induction body as [|b body IH]; intros n t cmds exps code st ic cases idx Hc Hok Hn Hgt; cbn [map numbered feed_code].
+  - exists ic. rewrite app_nil_r. destruct code; reflexivity.
+  - cbn [forallb] in Hok. apply andb_true_iff in Hok. destruct Hok as [Hb Hok]. destruct b as [l|ds]; cbn [render_body].
+    + rewrite (add_exp_md t cmds exps code st ic cases l idx n Hc Hb) by (intros E; exact (Hgt E)).
+      destruct (IH n t cmds (exps ++ [l]) code st false cases (S idx) Hc Hok Hn ltac:(discriminate)) as [ic' E].
+      exists ic'. rewrite E. cbn [exps_of flat_map]. rewrite <- app_assoc. cbn [app]. unfold code_of. cbn [flat_map app]. reflexivity.
+    + cbn [count_codes] in Hn. destruct code as [c0|]; [cbn in Hn; lia|].
+      rewrite (add_code_md t cmds exps st ic cases ds idx Hc Hb).
+      destruct (IH n t cmds exps (Some (digits_value 0 ds)) st false cases (S idx) Hc Hok ltac:(cbn; lia) ltac:(discriminate)) as [ic' E].
+      exists ic'. rewrite E. cbn [exps_of flat_map app]. unfold code_of. cbn [flat_map app orelse_code]. reflexivity.
+Qed.
+
+Lemma feed_block : forall n c conts body t ic cases i0, md_body_ok pe_ok n body = true ->
+  exists ic', feed_code pe_ok (cl t ic cases) (code_lines i0 (Some (c, conts, body)))
+              = LOk (mkLP t (c :: conts) (exps_of body) (code_of body) ic' (Some i0) cases).
+Proof.
+  intros n c conts body t ic cases i0 Hb. unfold code_lines, cl. cbn [app numbered feed_code].
+  unfold add_body at 1. cbn [orb lp_cmd]. rewrite strip_dollar. cbn [lp_title lp_cmd lp_exps lp_code lp_in_command lp_start lp_cases app].
+  rewrite numbered_app, feed_app. rewrite feed_conts_md by discriminate.
+  unfold md_body_ok in Hb. apply andb_true_iff in Hb. destruct Hb as [Hb H3]. apply andb_true_iff in Hb. destruct Hb as [H1 H2].
+  apply Nat.leb_le in H2.
+  destruct (feed_body_md body n t ([c] ++ conts) [] None i0 true cases (S i0 + length (map (fun x => P_GT ++ x) conts)) ltac:(discriminate) H1
+              ltac:(cbn; lia) ltac:(intros _; destruct body as [|[l|ds] body']; [exact I| |exact I]; apply negb_true_iff in H3; exact H3)) as [ic' E].
+  exists ic'. exact E.
+Qed.
+End Doc.
+
+Section Final.
+Variable pe_ok : text -> bool.
+Variable front_ok : list text -> bool.
+Variable cfg_ok : text -> bool.
+Notation parse_tokens := (Markdown.parse_tokens pe_ok front_ok cfg_ok).
+
+Lemma set_title_cl : forall t ic cases x, set_title (cl t ic cases) x = cl (Some x) ic cases.
+Proof. reflexivity. Qed.
+
+Lemma title_token : forall idx l rest t ic cases para cfgs,
+  parse_tokens (TLine idx l :: rest) (cl t ic cases) para cfgs
+  = parse_tokens rest (cl (ts_title (title_line (mkTS para t) l)) ic cases) (ts_para (title_line (mkTS para t) l)) cfgs.
+Proof.
+  intros. cbn [Markdown.parse_tokens]. unfold title_line. cbn [ts_para ts_title].
+  destruct (extract_title l) as [t0|]; cbn [ts_para ts_title]; [rewrite set_title_cl|]; reflexivity.
+Qed.
+
+Theorem parse_tokens_spec : forall d first idx t para ic acc,
+  wf_md_from pe_ok front_ok cfg_ok first d = true ->
+  exists t' ic',
+    parse_tokens (tokens_from idx d) (cl t ic (map mt_test acc)) para (map mt_cfg acc)
+    = LOk (cl t' ic' (map mt_test (rev (md_tests_from d idx (mkTS para t)) ++ acc)),
+           map mt_cfg (rev (md_tests_from d idx (mkTS para t)) ++ acc)).
+Proof.
+  induction d as [|e d IH]; intros first idx t para ic acc H.
+  - exists t, ic. reflexivity.
+  - cbn [wf_md_from] in H. apply andb_true_iff in H. destruct H as [He Hd].
+    cbn [tokens_from md_tests_from].
+    destruct e as [lines|l|k tt| |n lang body tail|n cfg comments cmd tail]; cbn [elem_ok] in He; cbn [elem_tokens app].
+    + (* front-matter *)
+      apply andb_true_iff in He. destruct He as [He _]. apply andb_true_iff in He. destruct He as [_ Hf].
+      cbn [Markdown.parse_tokens]. rewrite Hf. eapply IH. exact Hd.
+    + rewrite title_token. destruct (title_line (mkTS para t) l) as [p' t'] eqn:E. cbn [ts_para ts_title]. eapply IH. exact Hd.
+    + change (hashes k ++ [32] ++ tt) with (hashes k ++ 32 :: tt). rewrite title_token.
+      destruct (title_line (mkTS para t) (hashes k ++ 32 :: tt)) as [p' t'] eqn:E. cbn [ts_para ts_title]. eapply IH. exact Hd.
+    + rewrite title_token. destruct (title_line (mkTS para t) []) as [p' t'] eqn:E. cbn [ts_para ts_title]. eapply IH. exact Hd.
+    + (* another code block *)
+      apply andb_true_iff in He. destruct He as [He _]. apply andb_true_iff in He. destruct He as [He _]. apply andb_true_iff in He. destruct He as [_ Hl].
+      unfold lang_ok in Hl. apply andb_true_iff in Hl. destruct Hl as [_ Hne].
+      cbn [Markdown.parse_tokens]. destruct (lang_of lang) as [|x r]; [discriminate|]. eapply IH. exact Hd.
+    + (* a scrut block *)
+      apply andb_true_iff in He. destruct He as [He Hcmd]. apply andb_true_iff in He. destruct He as [He _]. apply andb_true_iff in He. destruct He as [_ Hcfg].
+      assert (Hcfg': (match cfg with Some c => cfg_ok c | None => true end) = true).
+      { destruct cfg as [c|]; [|reflexivity]. unfold cfg_text_ok in Hcfg. apply andb_true_iff in Hcfg. destruct Hcfg as [Hcfg _]. apply andb_true_iff in Hcfg. tauto. }
+      cbn [Markdown.parse_tokens]. rewrite Hcfg'. destruct cmd as [[[c conts] body]|].
+      * apply andb_true_iff in Hcmd. destruct Hcmd as [_ Hbody].
+        destruct (feed_block pe_ok front_ok cfg_ok n c conts body t ic (map mt_test acc) (idx + 1 + length comments) Hbody) as [ic1 E1].
+        rewrite E1. unfold end_testcase. cbn [lp_cmd lp_title lp_exps lp_code lp_start lp_cases flush lp_in_command].
+        assert (Lt: Nat.ltb (length (map mt_test acc)) (length (mkPT match t with Some t0 => t0 | None => [] end (c :: conts) (exps_of body) (code_of body) (S (idx + 1 + length comments)) :: map mt_test acc)) = true)
+          by (apply Nat.ltb_lt; cbn [length]; lia).
+        rewrite Lt.
+        set (x := mkMT (mkPT match t with Some t0 => t0 | None => [] end (c :: conts) (exps_of body) (code_of body) (S (idx + 1 + length comments))) cfg).
+        destruct (IH (first && false) (idx + length (render_elem (EScrut n cfg comments (Some (c, conts, body)) tail)))%nat None [] ic1 (x :: acc) Hd) as (t' & ic' & E).
+        exists t', ic'.
+        change (mkPT match t with Some t0 => t0 | None => [] end (c :: conts) (exps_of body) (code_of body) (S (idx + 1 + length comments)) :: map mt_test acc) with (map mt_test (x :: acc)).
+        change (cfg :: map mt_cfg acc) with (map mt_cfg (x :: acc)).
+        unfold flush. cbn [lp_in_command ts_title]. fold x. unfold cl in E. rewrite E. cbn [rev]. rewrite <- !app_assoc. reflexivity.
+      * cbn [code_lines Markdown.feed_code]. unfold end_testcase. cbn [cl lp_cmd lp_exps]. rewrite Nat.ltb_irrefl.
+        eapply IH. exact Hd.
+Qed.
+
+Lemma combine_rev_maps : forall (l : list mtest),
+  map (fun p => mkMT (fst p) (snd p)) (combine (rev (map mt_test l)) (rev (map mt_cfg l))) = rev l.
+Proof.
+  intros l. rewrite <- !map_rev. generalize (rev l) as m. induction m as [|x m IH]; [reflexivity|].
+  cbn [map combine fst snd]. rewrite IH. destruct x; reflexivity.
+Qed.
+
+Theorem parse_render_md : forall d, wf_md pe_ok front_ok cfg_ok d = true ->
+  parse_md pe_ok front_ok cfg_ok (render_md d) = LOk (md_tests_of d).
+Proof.
+  intros d H. unfold parse_md, md_tokens, wf_md in *.
+  change (Top false) with (Top (negb true)). rewrite (tokens_render pe_ok front_ok cfg_ok d true 0%nat H).
+  destruct (parse_tokens_spec d true 0%nat None [] false [] H) as (t' & ic' & E).
+  change lp_init with (cl None false (map mt_test [])). change (@nil (option text)) with (map mt_cfg []) at 1.
+  rewrite E. cbn [cl lp_cases]. rewrite combine_rev_maps. rewrite app_nil_r, rev_involutive. reflexivity.
+Qed.
+End Final.
